@@ -1485,11 +1485,12 @@ func (l *lexer) scanCmdSubst(r rune) bool {
 			l.mu.Lock()
 			l.err = ll.err
 			if len(ll.stack) == 0 && r == '`' {
-				err := l.err.(Error)
-				l.err = Error{
-					Name: err.Name,
-					Pos:  err.Pos,
-					Msg:  "syntax error: unexpected '`'",
+				if err, ok := l.err.(Error); ok {
+					l.err = Error{
+						Name: err.Name,
+						Pos:  err.Pos,
+						Msg:  "syntax error: unexpected '`'",
+					}
 				}
 			}
 			l.mu.Unlock()
